@@ -843,7 +843,16 @@ pub fn gen_input(rng: &mut Rng, case: &Case) -> String {
     };
     match rng.weighted(&[6, 6, 12, 14, 14, 8, 10, 16, 2, 6, 6]) {
         0 => String::new(),
-        1 => [" ", "  ", "\t", "\n", " \u{a0} ", "\r\n"][rng.usize_below(6)].to_string(),
+        1 => {
+            // blank or invisible strings, alone or in front of / behind a spelling
+            let inv = [" ", "  ", "\t", "\n", " \u{a0} ", "\r\n", "\u{feff}", "\u{200b}", "\0", "\u{feff}\u{feff}", "\u{2028}"];
+            let x = inv[rng.usize_below(inv.len())];
+            match rng.below(3) {
+                0 => x.to_string(),
+                1 => format!("{}{}", x, base(rng)),
+                _ => format!("{}{}", base(rng), x),
+            }
+        }
         2 => {
             let b = base(rng);
             match rng.below(3) {
@@ -899,7 +908,7 @@ pub fn gen_leg(rng: &mut Rng, case: &Case) -> Leg {
         return Leg::Conv { variant: 0, inner: (0, 0, -1) };
     }
     let inner = |rng: &mut Rng| -> (u64, u64, i64) {
-        let a = gen_pick_index(rng);
+        let a = gen_payload(rng, 1)[0];
         let b = rng.below(3);
         let c = if rng.chance(25, 100) { rng.below(5) as i64 } else { -1 };
         (a, b, c)
